@@ -181,6 +181,23 @@ func gen(g *core.G) {
 		g.Emit("sound " + gc.A.String() + " " + gc.B.String() + " " + lg.MutateVal(gc.V).String())
 	}
 
+	// ---- (2'') types given as TEXT in every parameter form of the creators: soundness of what the texts denote --------------
+	spells := lg.Spellings(px.CurrentContext(), 300*g.Scale)
+	for i, sc := range spells {
+		ta := lat.Txt(sc.Text).String()
+		b := lg.Narrow(sc.Ty)
+		w, ok := lg.Witness(b)
+		if !ok {
+			w = lg.Val(2)
+		}
+		g.Emit("sound " + ta + " " + b.String() + " " + w.String())
+		g.Emit("sound " + ta + " " + b.String() + " " + lg.MutateVal(w).String())
+		o := spells[(i*7+3)%len(spells)]
+		if wo, ok := lg.Witness(o.Ty); ok {
+			g.Emit("sound " + ta + " " + lat.Txt(o.Text).String() + " " + wo.String())
+		}
+	}
+
 	// ---- (3) malformed / odd stream (implementation only: no constructor accepts these terms) ---------------
 	odd := []string{
 		"(int 2 1)", "(flt (1 0) (0 0))", "(tspan 5 1)", "(strsz 3 1)", "(strsz -1 2)", "(coll 2 1)", "(arr any 5 2)", "(arr any -1 2)",
